@@ -305,6 +305,30 @@ def seek_shape(p, e):
         return "pointer"
     if wh == N.const(1) and N._lin_parts(off)[1] <= 0 and all(c < 0 for c in N._lin_parts(off)[0].values()):
         return "backstep"
+    flat = set()
+    for g in p.guards(e):
+        flat |= set(g[2]) if g[0] == "bool" and g[1] == "and" else {g}
+    if wh == N.const(1) and (N.mk_cmp("<=", off, N.const(0)) in flat or N.mk_cmp("<", off, N.const(0)) in flat):
+        return "backstep"         # a relative seek by an amount the path has established to be non-positive
+    if wh == N.const(0) and off[0] == "lin" and off[2] == 0 and all(c == 1 for _, c in off[1]):
+        # tell + len(<bytes read from this stream after that tell>): a position inside what has already been read (never past the current one)
+        tells = [a for a, _ in off[1] if a[0] == "tell" and a[1] == s]
+        lens = [a for a, _ in off[1] if a[0] == "call" and a[1] == ("free", "len") and len(a[2]) == 1]
+        if len(tells) == 1 and len(lens) == len(off[1]) - 1 and lens:
+            tell_ev = next((x for x in p.events if x.kind == "TELL" and x["res"] == tells[0]), None)
+            after = p.events[p.index(tell_ev):] if tell_ev is not None else []
+            reads = {x["res"] for x in after if x.kind in ("READ", "READALL") and x["stream"] == s}
+            steps = getattr(p, "loop_steps", [])
+            def from_reads(t):
+                leaves = [x for x in N.walk(t) if x[0] in ("read", "readall")]
+                if leaves and all(x in reads or x[1] == s for x in leaves):
+                    return True
+                # b"".join(<list>) where every append to that list, on this path and in the earlier iterations of its loops, is a unit just read
+                lists = [x for x in N.walk(t) if x[0] == "new" and x[1] == "list"]
+                apps = [x for x in list(p.events) + [y for _, evs, _ in steps for y in evs] if x.kind == "MUT" and x["base"] in lists and x["method"] in ("append", "extend", "insert")]
+                return bool(lists) and bool(apps) and all(x["method"] == "append" and x["args"] and x["args"][0][0] == "read" and x["args"][0][1] == s for x in apps)
+            if tell_ev is not None and all(from_reads(a[2][0]) for a in lens):
+                return "within-read"
     return None
 
 
